@@ -21,6 +21,14 @@ def c14(ck, tier, seed):
         res = vlib.run_driver(binary, "oom", {"kind": k, "seed": seed + i, "tier": tier}, od, timeout=1200)
         files += ck.add_driver(res)
         cmds.append(" ".join(map(str, res["cmd"])))
+    # calls without an error return (set_var_order, add_vars) under memory pressure, one process each
+    for k in KINDS:
+        for scen in (["reorder", "add_vars"] if k != "zbdd" else ["add_vars"]):
+            for slack in ([0, 1] if tier == "quick" else [0, 1, 2, 4]):
+                od = os.path.join(ck.outdir, "oomabort-%s-%s-%d" % (k, scen, slack))
+                res = vlib.run_driver(binary, "oomabort", {"kind": k, "scen": scen, "slack": slack, "seed": seed}, od, timeout=300)
+                files += ck.add_driver(res)
+                cmds.append(" ".join(map(str, res["cmd"])))
     ck.sample_from(files)
     results = vlib.validate("TraceManager", files, ["C14"])
     ck.add_validation(results, driver_cmd=cmds)
